@@ -6,7 +6,7 @@ from oracle_util import *  # noqa
 from protocol import from_real
 
 ID = "C15"
-LEAN_MODULE = ["SCoda.Props.C15", "SCoda.Props.NotesB"]
+LEAN_MODULE = ["SCoda.Props.C15", "SCoda.Props.NotesB", "SCoda.Props.ViewTie", "SCoda.Props.WrapTie"]
 LEVEL = "proof"
 CLAUSES = [
     ("sounding set of the merge = union of the inputs' sounding sets (overlaps fused from earliest start to latest end); the merge is well-formed; "
@@ -25,6 +25,8 @@ CLAUSES = [
       "SCoda.NotesB.order_independent_velocity_statement_false", "SCoda.NotesB.notes_lift", "SCoda.NotesB.lift_sounding_only_statement_false"]),
     ("both kinds of signature as TIMED lists: the (tick, numerator, denominator) and (tick, key) lists of the merge are those of the tick-ordered union of the inputs with "
      "every repeat of the value in force removed (the first of a run survives, at its tick)", ["SCoda.NotesB.merge_signatures_timed", "SCoda.NotesB.union_signatures"]),
+    ("TIE BY TRANSLATION: AbsoluteSequence.merge and Sequence.merge (absolute views of the arguments, merge, invalidate, normalise) as re-translated from the source "
+     "equal the models mergeAbs / Seq.mergeSeq", ["SCoda.ViewTie.merge_eq", "SCoda.WrapTie.merge_eq", "SCoda.ViewTie.normaliseAbsolute_eq"]),
     ("the union clause needs notes of positive length: with a zero-length note in an input it is refuted (A = [5,10), B = [5,5): A's note is lost) — known finding D17c, "
      "replayed; stated without PosDur for inputs whose canonical sort is well-formed",
      ["SCoda.NotesB.union_statement_false", "SCoda.NotesB.union_partial", "SCoda.NotesB.union_sorted", "SCoda.NotesB.merge_notes_fused_sorted",
